@@ -294,6 +294,39 @@ theorem find_isSome_of_known {p : Proj} {k : String} (h : k ∈ known p) : ∃ s
 theorem known_of_find {p : Proj} {k : String} {s : Svc} (h : find p k = some s) : k ∈ known p := by
   rw [known_eq, ← lookup_isSome, ← find_eq_lookup, h]; rfl
 
+theorem envLe_refl (e : AL (Option String)) : envLe e e = true := by
+  induction e with
+  | nil => rfl
+  | cons hd t ih => obtain ⟨k, v⟩ := hd; simp [envLe, ih]
+
+theorem envLe_trans {a b c : AL (Option String)} (h1 : envLe a b = true) (h2 : envLe b c = true) : envLe a c = true := by
+  induction a generalizing b c with
+  | nil => cases b <;> cases c <;> simp_all [envLe]
+  | cons hd t ih =>
+    obtain ⟨k, v⟩ := hd
+    cases b with
+    | nil => simp [envLe] at h1
+    | cons hb tb =>
+      obtain ⟨kb, vb⟩ := hb
+      cases c with
+      | nil => simp [envLe] at h2
+      | cons hc tc =>
+        obtain ⟨kc, vc⟩ := hc
+        simp only [envLe, Bool.and_eq_true, Bool.or_eq_true, beq_iff_eq] at h1 h2 ⊢
+        refine ⟨⟨h1.1.1.trans h2.1.1, ?_⟩, ih h1.2 h2.2⟩
+        rcases h1.1.2 with e | e
+        · rcases h2.1.2 with e' | e'
+          · exact .inl (e.trans e')
+          · exact .inr (e.trans e')
+        · exact .inr e
+
+theorem envLe_resolve (penv : AL String) (e : AL (Option String)) : envLe e (resolveEnv penv e) = true := by
+  induction e with
+  | nil => rfl
+  | cons hd t ih =>
+    obtain ⟨k, v⟩ := hd
+    cases v <;> simp [resolveEnv, envLe] <;> exact ih
+
 theorem depsShrink_refl {s : Svc} (nd : (keys s.deps).Nodup) : depsShrink s s :=
   fun kv h => lookup_of_mem nd h
 
@@ -304,7 +337,7 @@ theorem conserved_of_find_eq {p q : Proj} (w : SvcWF p) (hq : Partition q) (h : 
   refine ⟨hq, ⟨fun x hx => (hk x).2 hx, fun x hx => (hk x).1 hx⟩, fun k hkq => ?_⟩
   obtain ⟨s, hs⟩ := find_isSome_of_known ((hk k).1 hkq)
   rw [h k, hs]
-  exact ⟨rfl, depsShrink_refl (svcWF_of_find w hs)⟩
+  exact ⟨rfl, depsShrink_refl (svcWF_of_find w hs), envLe_refl _⟩
 
 theorem svcWF_of_find_eq {p q : Proj} (w : SvcWF p) (h : ∀ k s, find q k = some s → find p k = some s)
     (hq : Partition q) : SvcWF q := by
@@ -353,52 +386,49 @@ theorem enableProfiles_eq (p : Proj) (names : List String) :
       simp [this, hn]
       cases lookup n p.disabled <;> rfl
 
-theorem withServicesEnabled_spec {p : Proj} (h : Partition p) (names : List String) :
-    EnableSpec p names (withServicesEnabled p names) := by
-  unfold EnableSpec withServicesEnabled
-  by_cases hn : names = []
-  · simp [hn]
-  · have hne : names.isEmpty = false := by cases names <;> simp_all
-    rw [if_neg hn, hne, enableProfiles_eq]
-    simp only [Bool.false_eq_true, if_false]
-    refine ⟨withProfiles_spec h _, fun ok n hnm hkn => ?_⟩
-    obtain ⟨s, hs⟩ := find_isSome_of_known hkn
-    have act : Active s (p.profiles ++ wantedProfiles p names) ∧
-        (n ∉ keys p.services → ∀ x ∈ s.profiles, x ∈ p.profiles ++ wantedProfiles p names) := by
-      by_cases hsv : n ∈ keys p.services
-      · refine ⟨?_, fun c => absurd hsv c⟩
-        obtain ⟨s', hs'⟩ := Option.isSome_iff_exists.1 (lookup_isSome.2 hsv)
-        have e : find p n = some s' := by unfold find; rw [hs']
-        rw [hs] at e; cases e
-        exact (ok (n, s) (mem_of_lookup hs')).mono (fun x hx => List.mem_append_left _ hx)
-      · have hl : lookup n p.services = none := lookup_eq_none.2 hsv
-        have hd : lookup n p.disabled = some s := by unfold find at hs; rw [hl] at hs; exact hs
-        have sub : ∀ x ∈ s.profiles, x ∈ p.profiles ++ wantedProfiles p names := by
-          intro x hx
-          refine List.mem_append_right _ ?_
-          unfold wantedProfiles
-          rw [List.mem_flatMap]
-          exact ⟨n, hnm, by simp [hsv, hd, hx]⟩
-        refine ⟨?_, fun _ => sub⟩
-        by_cases he : s.profiles = []
-        · exact .inl he
-        · obtain ⟨x, hx⟩ := List.exists_mem_of_ne_nil _ he
-          exact .inr (.inr ⟨x, hx, sub x hx⟩)
-    have hq : find (withProfiles p (p.profiles ++ wantedProfiles p names)) n = some s := by
-      rw [find_withProfiles h, hs]
-    refine ⟨?_, ?_⟩
-    · rw [← lookup_isSome, lookup_withProfiles_services h, hs]
-      simp [Option.filter, (hasProfile_iff _ _).2 act.1]
-    · rw [hq]; exact act
+theorem enable_activation {p : Proj} (h : Partition p) (names : List String) (ok : ProfilesOK p)
+    (n : String) (hnm : n ∈ names) (hkn : n ∈ known p) :
+    n ∈ keys (withProfiles p (p.profiles ++ wantedProfiles p names)).services ∧
+    ∃ s, find (withProfiles p (p.profiles ++ wantedProfiles p names)) n = some s ∧
+      Active s (p.profiles ++ wantedProfiles p names) ∧
+      (n ∉ keys p.services → ∀ x ∈ s.profiles, x ∈ p.profiles ++ wantedProfiles p names) := by
+  obtain ⟨s, hs⟩ := find_isSome_of_known hkn
+  have act : Active s (p.profiles ++ wantedProfiles p names) ∧
+      (n ∉ keys p.services → ∀ x ∈ s.profiles, x ∈ p.profiles ++ wantedProfiles p names) := by
+    by_cases hsv : n ∈ keys p.services
+    · refine ⟨?_, fun c => absurd hsv c⟩
+      obtain ⟨s', hs'⟩ := Option.isSome_iff_exists.1 (lookup_isSome.2 hsv)
+      have e : find p n = some s' := by unfold find; rw [hs']
+      rw [hs] at e; cases e
+      exact (ok (n, s) (mem_of_lookup hs')).mono (fun x hx => List.mem_append_left _ hx)
+    · have hl : lookup n p.services = none := lookup_eq_none.2 hsv
+      have hd : lookup n p.disabled = some s := by unfold find at hs; rw [hl] at hs; exact hs
+      have sub : ∀ x ∈ s.profiles, x ∈ p.profiles ++ wantedProfiles p names := by
+        intro x hx
+        refine List.mem_append_right _ ?_
+        unfold wantedProfiles
+        rw [List.mem_flatMap]
+        exact ⟨n, hnm, by simp [hsv, hd, hx]⟩
+      refine ⟨?_, fun _ => sub⟩
+      by_cases he : s.profiles = []
+      · exact .inl he
+      · obtain ⟨x, hx⟩ := List.exists_mem_of_ne_nil _ he
+        exact .inr (.inr ⟨x, hx, sub x hx⟩)
+  have hq : find (withProfiles p (p.profiles ++ wantedProfiles p names)) n = some s := by
+    rw [find_withProfiles h, hs]
+  refine ⟨?_, s, hq, act⟩
+  rw [← lookup_isSome, lookup_withProfiles_services h, hs]
+  simp [Option.filter, (hasProfile_iff _ _).2 act.1]
 
 theorem withServicesEnabled_eq (p : Proj) (names : List String) :
-    withServicesEnabled p names = p ∨ withServicesEnabled p names = withProfiles p (enableProfiles p names) := by
+    withServicesEnabled p names = p ∨
+    withServicesEnabled p names = resolveEnabled (withProfiles p (enableProfiles p names)) := by
   unfold withServicesEnabled; split <;> simp
 
 /-! ## carried-over contents -/
 
 /-- `t` is `s` with some dependencies removed -/
-def SvcLe (s t : Svc) : Prop := sameButDeps s t ∧ depsShrink s t
+def SvcLe (s t : Svc) : Prop := sameButDeps s t ∧ depsShrink s t ∧ envMore s t
 
 def optRel {α} (r : α → α → Prop) : Option α → Option α → Prop
   | some a, some b => r a b
@@ -408,12 +438,12 @@ def optRel {α} (r : α → α → Prop) : Option α → Option α → Prop
 /-- every service of `p` is a service of `q` (and conversely), with possibly fewer dependencies -/
 def Carried (p q : Proj) : Prop := ∀ k, optRel SvcLe (find p k) (find q k)
 
-theorem SvcLe.refl {s : Svc} (nd : (keys s.deps).Nodup) : SvcLe s s := ⟨rfl, depsShrink_refl nd⟩
+theorem SvcLe.refl {s : Svc} (nd : (keys s.deps).Nodup) : SvcLe s s := ⟨rfl, depsShrink_refl nd, envLe_refl _⟩
 
 theorem SvcLe.trans {a b c : Svc} (h1 : SvcLe a b) (h2 : SvcLe b c) : SvcLe a c := by
-  refine ⟨h1.1.trans h2.1, fun kv hkv => ?_⟩
-  have := h2.2 kv hkv
-  exact h1.2 (kv.1, kv.2) (mem_of_lookup this)
+  refine ⟨h1.1.trans h2.1, fun kv hkv => ?_, envLe_trans h1.2.2 h2.2.2⟩
+  have := h2.2.1 kv hkv
+  exact h1.2.1 (kv.1, kv.2) (mem_of_lookup this)
 
 theorem Carried.refl {p : Proj} (w : SvcWF p) : Carried p p := by
   intro k
@@ -538,7 +568,7 @@ theorem find_disableOne (p : Proj) (n k : String) :
     cases lookup k p.disabled <;> simp
 
 theorem svcLe_dropDep {s : Svc} (nd : (keys s.deps).Nodup) (n : String) : SvcLe s (dropDep n s) := by
-  refine ⟨rfl, fun kv hkv => ?_⟩
+  refine ⟨rfl, fun kv hkv => ?_, envLe_refl _⟩
   simp only [dropDep, erase_eq_filter, List.mem_filter] at hkv
   exact lookup_of_mem nd hkv.1
 
@@ -625,12 +655,12 @@ theorem withServicesDisabled_resources (p : Proj) (names : List String) :
     sameResources p (withServicesDisabled p names) := by
   unfold withServicesDisabled
   induction names generalizing p with
-  | nil => exact ⟨rfl, rfl, rfl, rfl⟩
+  | nil => exact ⟨rfl, rfl, rfl, rfl, rfl⟩
   | cons n ns ih =>
     have a := disableOne_resources p n
     have b := ih (disableOne p n)
     simp only [List.foldl_cons]
-    exact ⟨a.1.trans b.1, a.2.1.trans b.2.1, a.2.2.1.trans b.2.2.1, a.2.2.2.trans b.2.2.2⟩
+    exact ⟨a.1.trans b.1, a.2.1.trans b.2.1, a.2.2.1.trans b.2.2.1, a.2.2.2.1.trans b.2.2.2.1, a.2.2.2.2.trans b.2.2.2.2⟩
 
 theorem lookup_withServicesDisabled_disabled_old {p : Proj} (names : List String) {k : String}
     (hk : k ∉ keys p.services) : lookup k (withServicesDisabled p names).disabled = lookup k p.disabled := by
@@ -1246,7 +1276,7 @@ theorem mem_selectedPruned {set : List String} {l : AL Svc} {kv : String × Svc}
   exact ⟨s, hm, hs, rfl⟩
 
 theorem svcLe_pruneDeps {s : Svc} (nd : (keys s.deps).Nodup) (set : List String) : SvcLe s (pruneDeps set s) := by
-  refine ⟨rfl, fun kv hkv => ?_⟩
+  refine ⟨rfl, fun kv hkv => ?_, envLe_refl _⟩
   simp only [pruneDeps, List.mem_filter] at hkv
   exact lookup_of_mem nd hkv.1
 
@@ -1346,7 +1376,8 @@ theorem carried_of_find_eq {p q : Proj} (w : SvcWF p) (h : ∀ k, find q k = fin
 /-- the same Go project: the two service maps listed in another order, the rest equal -/
 def SameProj (p p' : Proj) : Prop :=
   p.services.Perm p'.services ∧ p.disabled.Perm p'.disabled ∧ p.profiles = p'.profiles ∧
-  p.networks = p'.networks ∧ p.volumes = p'.volumes ∧ p.secrets = p'.secrets ∧ p.configs = p'.configs
+  p.networks = p'.networks ∧ p.volumes = p'.volumes ∧ p.secrets = p'.secrets ∧ p.configs = p'.configs ∧
+  p.environment = p'.environment
 
 /-- the same Go map -/
 def LookEq {α} (m m' : AL α) : Prop := ∀ k, lookup k m = lookup k m'
@@ -1870,5 +1901,97 @@ theorem namesOK_perm {p p' : Proj} (nk : NamesOK p) (e1 : p.services.Perm p'.ser
   rcases List.mem_append.1 hkv with a | a
   · exact List.mem_append_left _ (e1.mem_iff.2 a)
   · exact List.mem_append_right _ (e2.mem_iff.2 a)
+
+/-! ## enabling: the environment tail -/
+
+theorem keys_resolveEnabled (p : Proj) : keys (resolveEnabled p).services = keys p.services :=
+  keys_map_val (fun _ s => resolveEnvSvc p.environment s) p.services
+
+theorem lookup_resolveEnabled_services (p : Proj) (k : String) :
+    lookup k (resolveEnabled p).services = (lookup k p.services).map (resolveEnvSvc p.environment) :=
+  lookup_map_val (fun _ s => resolveEnvSvc p.environment s)
+
+theorem resolveEnabled_partition {p : Proj} (h : Partition p) : Partition (resolveEnabled p) :=
+  ⟨by rw [keys_resolveEnabled]; exact h.1, h.2.1, by rw [keys_resolveEnabled]; exact h.2.2⟩
+
+theorem find_resolveEnabled (p : Proj) (k : String) :
+    find (resolveEnabled p) k =
+      if k ∈ keys p.services then (find p k).map (resolveEnvSvc p.environment) else find p k := by
+  unfold find
+  rw [lookup_resolveEnabled_services]
+  show (match (lookup k p.services).map _ with | some s => some s | none => lookup k p.disabled) = _
+  by_cases hk : k ∈ keys p.services
+  · obtain ⟨s, hs⟩ := Option.isSome_iff_exists.1 (lookup_isSome.2 hk)
+    simp [hk, hs]
+  · simp [hk, lookup_eq_none.2 hk]
+
+theorem resolvedSvc_eq (penv : AL String) (s : Svc) : resolveEnvSvc penv s = resolvedSvc penv s := rfl
+
+theorem svcLe_resolve {s : Svc} (nd : (keys s.deps).Nodup) (penv : AL String) : SvcLe s (resolveEnvSvc penv s) :=
+  ⟨rfl, depsShrink_refl nd, envLe_resolve penv s.env⟩
+
+theorem carried_resolveEnabled {p : Proj} (w : SvcWF p) : Carried p (resolveEnabled p) := by
+  intro k
+  rw [find_resolveEnabled]
+  cases h : find p k with
+  | none => split <;> trivial
+  | some s =>
+    have nd := svcWF_of_find w h
+    split
+    · exact svcLe_resolve nd _
+    · exact SvcLe.refl nd
+
+theorem svcWF_resolveEnabled {p : Proj} (w : SvcWF p) : SvcWF (resolveEnabled p) := by
+  intro kv hkv
+  rcases List.mem_append.1 hkv with a | a
+  · have : kv ∈ p.services.map fun kv => (kv.1, resolveEnvSvc p.environment kv.2) := a
+    obtain ⟨kv0, hm, rfl⟩ := List.mem_map.1 this
+    exact w kv0 (List.mem_append_left _ hm)
+  · exact w kv (List.mem_append_right _ a)
+
+theorem profilesOK_resolveEnabled {p : Proj} (ok : ProfilesOK p) : ProfilesOK (resolveEnabled p) := by
+  intro kv hkv
+  have : kv ∈ p.services.map fun kv => (kv.1, resolveEnvSvc p.environment kv.2) := hkv
+  obtain ⟨kv0, hm, rfl⟩ := List.mem_map.1 this
+  exact ok kv0 hm
+
+theorem known_resolveEnabled (p : Proj) : known (resolveEnabled p) = known p := by
+  unfold known; rw [keys_resolveEnabled]; rfl
+
+theorem withServicesEnabled_spec {p : Proj} (h : Partition p) (names : List String) :
+    EnableSpec p names (withServicesEnabled p names) := by
+  unfold EnableSpec withServicesEnabled
+  by_cases hn : names = []
+  · simp [hn]
+  · have hne : names.isEmpty = false := by cases names <;> simp_all
+    rw [if_neg hn, hne, enableProfiles_eq]
+    simp only [Bool.false_eq_true, if_false]
+    generalize hP : p.profiles ++ wantedProfiles p names = P
+    have S := withProfiles_spec h P
+    have hq0 := withProfiles_partition h P
+    have henv : (withProfiles p P).environment = p.environment := rfl
+    refine ⟨rfl, fun k hk => ?_, fun k hk => ?_, fun ok n hnm hkn => ?_⟩
+    · rw [known_resolveEnabled] at hk
+      have := S.2.1 k hk
+      rw [find_resolveEnabled, keys_resolveEnabled]
+      cases hf : find (withProfiles p P) k with
+      | none => simp [hf, sat] at this
+      | some s =>
+        simp only [hf, sat] at this
+        by_cases hm : k ∈ keys (withProfiles p P).services
+        · simp only [hm, if_true, Option.map_some, sat]
+          exact ⟨fun _ => this.1 hm, fun _ => trivial⟩
+        · simp only [hm, if_false, sat]
+          exact ⟨fun c => c.elim, fun c => hm (this.2 c)⟩
+    · rw [known_resolveEnabled] at hk
+      have hfe := S.2.2 k hk
+      obtain ⟨s, hs⟩ := find_isSome_of_known hk
+      rw [find_resolveEnabled, keys_resolveEnabled, ← hfe, hs, henv]
+      by_cases hm : k ∈ keys (withProfiles p P).services <;> simp [hm, sat, resolvedSvc_eq]
+    · subst hP
+      obtain ⟨hin, s, hfs, act⟩ := enable_activation h names ok n hnm hkn
+      refine ⟨by rw [keys_resolveEnabled]; exact hin, ?_⟩
+      rw [find_resolveEnabled, if_pos hin, hfs]
+      exact act
 
 end CV.Sel
